@@ -3,6 +3,7 @@
 package main
 
 import (
+	"bufio"
 	"bytes"
 	"context"
 	"crypto/sha1"
@@ -397,7 +398,7 @@ func (s *store) enter(cb string, k int) (fault bool, leave func()) {
 }
 
 func (s *store) load(ctx context.Context, d interface{}) (interface{}, error) {
-	k := int(d.(mux.Int))
+	k := keyToInt(d)
 	f, leave := s.enter("load", k)
 	defer leave()
 	if f {
@@ -480,7 +481,7 @@ func (s *store) upsert(ctx context.Context, d interface{}, e interface{}) (inter
 }
 
 func (s *store) del(ctx context.Context, d interface{}) error {
-	k := int(d.(mux.Int))
+	k := keyToInt(d)
 	f, leave := s.enter("del", k)
 	defer leave()
 	if f {
@@ -497,13 +498,14 @@ func isNotFound(err error) bool { return err == errNotFound }
 // ---------------------------------------------------------------- the group under test
 
 type group struct {
-	g       *mux.WorkerGrp
-	st      *store
-	facades []mux.CacheFacade
-	keys    map[int]bool
-	home    map[int]int // key -> worker whose cache was seen holding it
-	extra   int         // consumer goroutines added by Start() calls after the first
-	gates   []*gateFacade
+	g           *mux.WorkerGrp
+	st          *store
+	facades     []mux.CacheFacade
+	keys        map[int]bool
+	home        map[int]int // key -> worker whose cache was seen holding it
+	extra       int         // consumer goroutines added by Start() calls after the first
+	gates       []*gateFacade
+	justDeleted map[int]bool // key -> the last operation on it was a successful delete
 }
 
 // startAgain: the script called `start`: groups (also the fresh ones of stress / pile) get Start() a second time
@@ -513,10 +515,10 @@ func newGroup(lru bool, capN, workers int) *group { return newGroupDeep(lru, cap
 
 // start calls Start() again; a second call must not add consumers (goroutines inside runLoop are counted)
 func (gr *group) start() {
-	_ = c14q.Quiesce(20 * time.Second) // goroutines of the first Start() show their runLoop frame only once they ran
+	_ = c14q.Quiesce(10 * time.Second) // goroutines of the first Start() show their runLoop frame only once they ran
 	before := c14q.CountIn("mux.(*Worker).runLoop")
 	gr.g.Start()
-	_ = c14q.Quiesce(20 * time.Second)
+	_ = c14q.Quiesce(10 * time.Second)
 	if after := c14q.CountIn("mux.(*Worker).runLoop"); after > before {
 		gr.extra += after - before
 		gr.st.mu.Lock()
@@ -556,7 +558,7 @@ func (g *gateFacade) Set(k interface{}, v interface{}) {
 var sizedGroups bool
 
 func newGroupDeep(lru bool, capN, workers, deep int) *group {
-	gr := &group{st: newStore(), keys: map[int]bool{}, home: map[int]int{}}
+	gr := &group{st: newStore(), keys: map[int]bool{}, home: map[int]int{}, justDeleted: map[int]bool{}}
 	gr.st.sized = sizedGroups && lru
 	gr.g = mux.NewWorkGrp(func() mux.CacheFacade {
 		var f mux.CacheFacade
@@ -614,21 +616,55 @@ func canonRes(op string, r interface{}, err error) string {
 	return "err?" + err.Error()
 }
 
-// barrierKey hashes like key h but is never a cache key of the scripts: an operation on it goes through the same worker
-type barrierKey struct{ h int }
+// keyTypes: the key types of hasher.go the scripts can use; the store and the monitors stay keyed by int
+var keyTypes = map[string]func(k int) mux.Hashed2Int{
+	"int": func(k int) mux.Hashed2Int { return mux.Int(k) }, "int64": func(k int) mux.Hashed2Int { return mux.Int64(k) },
+	"uint64": func(k int) mux.Hashed2Int { return mux.UInt64(uint64(k)) }, "intcrc": func(k int) mux.Hashed2Int { return mux.IntCRC(k) },
+	"int64crc": func(k int) mux.Hashed2Int { return mux.Int64CRC(k) }, "uint64crc": func(k int) mux.Hashed2Int { return mux.UInt64CRC(uint64(k)) },
+	"string": func(k int) mux.Hashed2Int { return mux.String(strconv.Itoa(k)) },
+}
 
-func (b barrierKey) HashedInt() int { return b.h }
+// scriptKeyType: the key type selected by `keytype <t>` for the script in flight
+var scriptKeyType = "int"
+
+func mkKey(k int) mux.Hashed2Int { return keyTypes[scriptKeyType](k) }
+
+func keyToInt(d interface{}) int {
+	switch x := d.(type) {
+	case mux.Int:
+		return int(x)
+	case mux.Int64:
+		return int(x)
+	case mux.UInt64:
+		return int(x)
+	case mux.IntCRC:
+		return int(x)
+	case mux.Int64CRC:
+		return int(x)
+	case mux.UInt64CRC:
+		return int(x)
+	case mux.String:
+		n, _ := strconv.Atoi(string(x))
+		return n
+	}
+	panic(fmt.Sprintf("harness: unexpected key %T", d))
+}
+
+// barrierKey hashes like key h but is never a cache key of the scripts: an operation on it goes through the same worker
+type barrierKey struct{ of mux.Hashed2Int }
+
+func (b barrierKey) HashedInt() int { return b.of.HashedInt() }
 
 // barrier returns when the worker of key k has finished everything queued before (FIFO, one consumer)
 func (gr *group) barrier(k int) {
 	defer func() { _ = recover() }()
-	_, _ = gr.g.DoGet(context.Background(), func(context.Context, interface{}) (interface{}, error) { return nil, errInj }, barrierKey{k})
+	_, _ = gr.g.DoGet(context.Background(), func(context.Context, interface{}) (interface{}, error) { return nil, errInj }, barrierKey{mkKey(k)})
 }
 
 func (gr *group) do(op string, k, v int) (res string) {
 	ctx, cancel := context.WithCancel(context.Background())
 	defer cancel()
-	key := mux.Int(k)
+	key := mkKey(k)
 	st := gr.st
 	st.mu.Lock()
 	st.cancel = cancel
@@ -672,9 +708,10 @@ func (gr *group) do(op string, k, v int) (res string) {
 	}()
 	select {
 	case res = <-done:
-	case <-time.After(20 * time.Second):
-		fmt.Fprintln(os.Stderr, "harness error: operation did not return within 20 s:", op, k, v)
-		os.Exit(2)
+	case <-time.After(5 * time.Second):
+		// the code under test hangs: an observation (the parent turns exit status 3 into a monitor hit)
+		fmt.Fprintf(os.Stderr, "OBSERVATION never-completes: %s on key %d did not return within 5 s\n", op, k)
+		os.Exit(3)
 	}
 	return res
 }
@@ -716,7 +753,7 @@ func rawPeek(f mux.CacheFacade, key interface{}) (interface{}, bool) {
 
 func (gr *group) peek(k int) (where []int, vals []interface{}) {
 	for i, f := range gr.facades {
-		if v, ok := rawPeek(f, mux.Int(k)); ok {
+		if v, ok := rawPeek(f, mkKey(k)); ok {
 			where = append(where, i)
 			vals = append(vals, v)
 		}
@@ -767,6 +804,10 @@ func (gr *group) op(op string, k, v int, faults []byte) string {
 	st.mu.Lock()
 	trace := append([]string{}, st.trace...)
 	st.faults = nil
+	if op == "get" && gr.justDeleted[k] && !strings.HasPrefix(res, "panic") && (len(trace) == 0 || trace[0] != "load") {
+		st.hit("C15:handleDelete:get-after-delete-served-from-cache", fmt.Sprintf("get of key %d right after its successful delete returned %s without consulting the store (callbacks %v)", k, res, trace))
+	}
+	gr.justDeleted[k] = op == "del" && res == "nil"
 	if op == "add" && len(cachedBefore) > 0 && (res != "err:dup" || len(trace) != 0) {
 		st.hit("C15:handleAdd:store-touched-for-cached-key", fmt.Sprintf("add on cached key %d: result %s, callbacks %v (expected duplicate-key error and no callback)", k, res, trace))
 	}
@@ -787,6 +828,7 @@ func (gr *group) op(op string, k, v int, faults []byte) string {
 // cache (and DoGet's fast path) serves for the key is compared with the store.
 func (gr *group) gap(op string, k, v int) string {
 	gr.keys[k] = true
+	gr.justDeleted[k] = false
 	st := gr.st
 	st.mu.Lock()
 	st.faults, st.trace = nil, nil
@@ -798,7 +840,7 @@ func (gr *group) gap(op string, k, v int) string {
 	}
 	done := make(chan string, 1)
 	go func() { done <- gr.do(op, k, v) }()
-	if err := c14q.Quiesce(20 * time.Second); err != nil {
+	if err := c14q.Quiesce(10 * time.Second); err != nil {
 		fmt.Fprintln(os.Stderr, "harness error:", err)
 		os.Exit(2)
 	}
@@ -824,7 +866,7 @@ func (gr *group) gap(op string, k, v int) string {
 		for j := range where {
 			if cv, ok := vals[j].(int); !ok || !present || cv != cur {
 				got := fmt.Sprint(vals[j])
-				if r, err := gr.g.DoGet(context.Background(), st.load, mux.Int(k)); err == nil {
+				if r, err := gr.g.DoGet(context.Background(), st.load, mkKey(k)); err == nil {
 					if gv, ok := unwrapVal(r); ok {
 						got = strconv.Itoa(gv)
 					}
@@ -886,11 +928,13 @@ func stress(lru bool, capN, workers int, seed, n int, hits map[string]string) {
 	go func() { wg.Wait(); close(fin) }()
 	select {
 	case <-fin:
-	case <-time.After(30 * time.Second):
-		fmt.Fprintln(os.Stderr, "harness error: stress did not finish within 30 s")
-		os.Exit(2)
+	case <-time.After(15 * time.Second):
+		fmt.Fprintln(os.Stderr, "OBSERVATION never-completes: a concurrent mix did not finish within 15 s")
+		os.Exit(3)
 	}
 	gr.checkCoherent("concurrent-mix")
+	gr.st.slow = false
+	routingStress(gr, n)
 	// the DoGet fast path reads the cache from caller goroutines while the worker writes it
 	{
 		var wg2 sync.WaitGroup
@@ -977,7 +1021,7 @@ func pile(lru bool, capN, workers, k, m int, hits map[string]string) {
 	gr := newGroupDeep(lru, capN, workers, 2)
 	st := gr.st
 	settle := func() {
-		if err := c14q.Quiesce(20 * time.Second); err != nil {
+		if err := c14q.Quiesce(10 * time.Second); err != nil {
 			fmt.Fprintln(os.Stderr, "harness error:", err)
 			os.Exit(2)
 		}
@@ -995,7 +1039,7 @@ func pile(lru bool, capN, workers, k, m int, hits map[string]string) {
 					s.done <- "panic"
 				}
 			}()
-			r, err := gr.g.DoUpsertThenRenewInCache(context.Background(), st.upsert, mux.Int(k), pair{k, v})
+			r, err := gr.g.DoUpsertThenRenewInCache(context.Background(), st.upsert, mkKey(k), pair{k, v})
 			s.done <- canonRes("utr", r, err)
 		}()
 		return s
@@ -1020,9 +1064,9 @@ func pile(lru bool, capN, workers, k, m int, hits map[string]string) {
 		if s.res == "" {
 			select {
 			case s.res = <-s.done:
-			case <-time.After(20 * time.Second):
-				fmt.Fprintln(os.Stderr, "harness error: pile did not drain within 20 s")
-				os.Exit(2)
+			case <-time.After(5 * time.Second):
+				fmt.Fprintln(os.Stderr, "OBSERVATION never-completes: operations piled up behind a released callback did not return within 5 s")
+				os.Exit(3)
 			}
 		}
 	}
@@ -1045,6 +1089,130 @@ func pile(lru bool, capN, workers, k, m int, hits map[string]string) {
 	for key, v := range st.hits {
 		if _, ok := hits[key]; !ok {
 			hits[key] = v
+		}
+	}
+}
+
+// backlog: the key's worker is held inside a callback, m further operations on the same key are accepted behind it in a
+// known order (from one goroutine, with contexts that are already done: the caller leaves at once, the operation stays
+// queued and must still be applied), then the worker is released. Every accepted operation is applied exactly once, in
+// acceptance order, and the cache agrees with the store afterwards. Fresh group (unbounded queue); monitors only.
+func backlog(lru bool, capN, workers, k, m int, hits map[string]string) {
+	gr := newGroupDeep(lru, capN, workers, 0)
+	st := gr.st
+	block := make(chan struct{})
+	st.mu.Lock()
+	st.block = block
+	st.mu.Unlock()
+	first := make(chan string, 1)
+	go func() {
+		defer func() {
+			if recover() != nil {
+				first <- "panic"
+			}
+		}()
+		r, err := gr.g.DoUpsertThenRenewInCache(context.Background(), st.upsert, mkKey(k), pair{k, 100})
+		first <- canonRes("utr", r, err)
+	}()
+	if err := c14q.Quiesce(10 * time.Second); err != nil {
+		fmt.Fprintln(os.Stderr, "harness error:", err)
+		os.Exit(2)
+	}
+	gone, cancel := context.WithCancel(context.Background())
+	cancel()
+	want := []int{100}
+	func() {
+		defer func() { _ = recover() }()
+		for i := 1; i <= m; i++ {
+			var err error
+			if i%2 == 0 {
+				_, err = gr.g.DoUpsertThenRenewInCache(gone, st.upsert, mkKey(k), pair{k, i})
+			} else {
+				_, err = gr.g.DoUpsertThenLoad(gone, st.upsert, st.load, mkKey(k), pair{k, i})
+			}
+			if err == context.Canceled {
+				want = append(want, i)
+			}
+		}
+	}()
+	close(block)
+	// no barrier through the worker (it may be gone): once everything is parked or gone, what was applied is final
+	if err := c14q.Quiesce(10 * time.Second); err != nil {
+		fmt.Fprintln(os.Stderr, "harness error:", err)
+		os.Exit(2)
+	}
+	res := "never-returned"
+	select {
+	case res = <-first:
+	default:
+	}
+	st.mu.Lock()
+	got := append([]int{}, st.applied[k]...)
+	if fmt.Sprint(got) != fmt.Sprint(want) && res != "panic" {
+		n := 0
+		for n < len(got) && n < len(want) && got[n] == want[n] {
+			n++
+		}
+		st.hit("C15:asyncCall:same-key-order", fmt.Sprintf("backlog of %d operations on key %d behind a held callback: %d were accepted, %d applied; the first %d agree with the acceptance order", m, k, len(want), len(got), n))
+	}
+	st.mu.Unlock()
+	gr.keys[k] = true
+	gr.checkCoherent("backlog")
+	gr.close()
+	for key, v := range st.hits {
+		if _, ok := hits[key]; !ok {
+			hits[key] = v
+		}
+	}
+}
+
+// routingStress: parallel callers, each owns one key of a hashing key type (String, IntCRC, Int64CRC): after its own
+// completed upsert a caller's DoGet must serve exactly what the upsert left; no key may be cached by two workers.
+func routingStress(gr *group, n int) {
+	st := gr.st
+	mk := []func(i int) mux.Hashed2Int{
+		func(i int) mux.Hashed2Int { return mux.String(strconv.Itoa(1000 + i)) },
+		func(i int) mux.Hashed2Int { return mux.IntCRC(2000 + i) },
+		func(i int) mux.Hashed2Int { return mux.Int64CRC(3000 + i) },
+	}
+	var wg sync.WaitGroup
+	for g := 0; g < 8; g++ {
+		g := g
+		wg.Add(1)
+		go func() {
+			defer wg.Done()
+			defer func() { _ = recover() }()
+			key := mk[g%3](g)
+			ik := keyToInt(key)
+			for j := 0; j < 20*n; j++ {
+				r, err := gr.g.DoUpsertThenLoad(context.Background(), st.upsert, st.load, key, pair{ik, 1})
+				if err != nil {
+					continue
+				}
+				want, _ := unwrapVal(r)
+				g2, err2 := gr.g.DoGet(context.Background(), st.load, key)
+				if got, _ := unwrapVal(g2); err2 == nil && got != want {
+					st.mu.Lock()
+					st.hit("C15:locHash:routing-unstable", fmt.Sprintf("parallel callers with %T keys: after its own completed upsert left %d, the caller's DoGet served %d", key, want, got))
+					st.mu.Unlock()
+					return
+				}
+			}
+		}()
+	}
+	wg.Wait()
+	for g := 0; g < 8; g++ {
+		key := mk[g%3](g)
+		n := 0
+		for _, f := range gr.facades {
+			if _, ok := rawPeek(f, key); ok {
+				n++
+			}
+		}
+		if n > 1 {
+			st.mu.Lock()
+			st.hit("C15:locHash:key-cached-by-two-workers", fmt.Sprintf("key %v (%T) is cached by %d workers after a parallel run", key, key, n))
+			st.mu.Unlock()
 		}
 	}
 }
@@ -1084,9 +1252,11 @@ func probe(lru bool, capN int, keyType string, hits map[string]string) {
 	}()
 	if res != "" {
 		what := fmt.Sprintf("a key of type mux.%s cannot be used: %s", map[string]string{"int": "Int", "int64": "Int64", "uint64": "UInt64", "intcrc": "IntCRC", "string": "String", "bytes": "Bytes"}[keyType], res)
-		key := "C15:mux:key-type-unusable:" + keyType
+		// one key per failing input = key TYPE (+ kind of failure): a crash of another key type is another finding
+		tn := map[string]string{"int": "Int", "int64": "Int64", "uint64": "UInt64", "intcrc": "IntCRC", "string": "String", "bytes": "Bytes"}[keyType]
+		key := "C15:mux." + tn + ":key-type-unusable"
 		if strings.Contains(res, "unhashable") {
-			key = "C15:mux.Bytes:unhashable-key"
+			key = "C15:mux." + tn + ":unhashable-key"
 		}
 		if _, ok := hits[key]; !ok {
 			hits[key] = what
@@ -1095,7 +1265,7 @@ func probe(lru bool, capN int, keyType string, hits map[string]string) {
 }
 
 func runScript(lines []string) ([]string, map[string]string) {
-	startAgain, sizedGroups = false, false
+	startAgain, sizedGroups, scriptKeyType = false, false, "int"
 	var gr *group
 	var lru bool
 	var capN, workers int
@@ -1188,6 +1358,18 @@ func runScript(lines []string) ([]string, map[string]string) {
 					out = strings.Join(parts, ",")
 				}
 			}
+		case len(w) == 2 && w[0] == "keytype" && gr != nil:
+			if keyTypes[w[1]] != nil {
+				scriptKeyType = w[1]
+				out = "ok"
+			}
+		case len(w) == 4 && w[0] == "backlog" && gr != nil:
+			k, ok1 := parseKey(w[1])
+			m, ok2 := parseNat(w[2], 5000)
+			if ok1 && ok2 && m >= 1 && w[3] == "-" {
+				backlog(lru, capN, workers, k, m, hits)
+				out = "done"
+			}
 		case len(w) == 1 && w[0] == "start" && gr != nil:
 			startAgain = true
 			gr.start()
@@ -1219,60 +1401,115 @@ type childOut struct {
 	Hits map[string]string `json:"hits"`
 }
 
-// runScriptChild: `c15 runscript` — one script (JSON array of lines) on stdin, result JSON on stdout.
+// runScriptChild: `c15 runscript` — a server loop: one script (JSON array of lines) per input line, one result JSON per
+// output line. Every script of the correspondence runs here, in a child process: a panic in a worker goroutine, a runtime
+// fatal error or a hang of the code under test is then an observation of the parent, never a harness error.
 func runScriptChild() {
-	var lines []string
-	if err := json.NewDecoder(os.Stdin).Decode(&lines); err != nil {
-		fmt.Fprintln(os.Stderr, "harness error: runscript:", err)
-		os.Exit(2)
+	in := bufio.NewScanner(os.Stdin)
+	in.Buffer(make([]byte, 1<<20), 1<<26)
+	w := bufio.NewWriter(os.Stdout)
+	for in.Scan() {
+		var lines []string
+		if err := json.Unmarshal(in.Bytes(), &lines); err != nil {
+			fmt.Fprintln(os.Stderr, "harness error: runscript:", err)
+			os.Exit(2)
+		}
+		outs, hits := runScript(lines)
+		b, _ := json.Marshal(childOut{outs, hits})
+		w.Write(b)
+		w.WriteByte('\n')
+		w.Flush()
 	}
-	outs, hits := runScript(lines)
-	_ = json.NewEncoder(os.Stdout).Encode(childOut{outs, hits})
 }
 
-// risky: scripts that run real concurrency (a data race is a fatal error of the runtime) or may leave extra consumers
-// behind run in a child process: a crash is an observation, not a harness error
-func risky(lines []string) bool {
-	for _, l := range lines {
-		if l == "start" || strings.HasPrefix(l, "stress ") || strings.HasPrefix(l, "pile ") {
-			return true
-		}
+type childProc struct {
+	cmd   *osexec.Cmd
+	in    *bufio.Writer
+	out   *bufio.Scanner
+	errb  *bytes.Buffer
+	stdin interface{ Close() error }
+}
+
+var child *childProc
+
+const childTimeout = 25 * time.Second
+
+func childFail(msg string) {
+	fmt.Fprintln(os.Stderr, "harness error:", msg)
+	os.Exit(2)
+}
+
+func startChild() *childProc {
+	cmd := osexec.Command(os.Args[0], "runscript")
+	stdin, err := cmd.StdinPipe()
+	if err != nil {
+		childFail(err.Error())
 	}
-	return false
+	stdout, err := cmd.StdoutPipe()
+	if err != nil {
+		childFail(err.Error())
+	}
+	errb := &bytes.Buffer{}
+	cmd.Stderr = errb
+	if err := cmd.Start(); err != nil {
+		childFail(err.Error())
+	}
+	sc := bufio.NewScanner(stdout)
+	sc.Buffer(make([]byte, 1<<20), 1<<26)
+	return &childProc{cmd: cmd, in: bufio.NewWriter(stdin), out: sc, errb: errb, stdin: stdin}
+}
+
+func (c *childProc) stop() {
+	_ = c.stdin.Close()
+	_ = c.cmd.Process.Kill()
+	_ = c.cmd.Wait()
 }
 
 func runInChild(lines []string) ([]string, map[string]string) {
+	if child == nil {
+		child = startChild()
+	}
+	c := child
 	b, _ := json.Marshal(lines)
-	cmd := osexec.Command(os.Args[0], "runscript")
-	cmd.Stdin = bytes.NewReader(b)
-	var out, errb bytes.Buffer
-	cmd.Stdout, cmd.Stderr = &out, &errb
-	done := make(chan error, 1)
-	if err := cmd.Start(); err != nil {
-		fmt.Fprintln(os.Stderr, "harness error:", err)
-		os.Exit(2)
-	}
-	go func() { done <- cmd.Wait() }()
-	var err error
-	select {
-	case err = <-done:
-	case <-time.After(120 * time.Second):
-		_ = cmd.Process.Kill()
-		fmt.Fprintln(os.Stderr, "harness error: child did not finish within 120 s:", lines)
-		os.Exit(2)
-	}
+	c.in.Write(b)
+	c.in.WriteByte('\n')
+	c.in.Flush()
+	timer := time.AfterFunc(childTimeout, func() { _ = c.cmd.Process.Kill() })
 	var res childOut
-	if err == nil && json.Unmarshal(out.Bytes(), &res) == nil && len(res.Outs) == len(lines) {
+	ok := c.out.Scan() && json.Unmarshal(c.out.Bytes(), &res) == nil && len(res.Outs) == len(lines)
+	killed := !timer.Stop()
+	if ok {
 		if res.Hits == nil {
 			res.Hits = map[string]string{}
 		}
+		if len(res.Hits) > 0 { // goroutines left behind by a misbehaving run: continue in a fresh process
+			c.stop()
+			child = nil
+		}
 		return res.Outs, res.Hits
 	}
-	msg := errb.String()
-	if strings.Contains(msg, "harness error") || !(strings.Contains(msg, "panic:") || strings.Contains(msg, "fatal error:")) {
+	_ = c.stdin.Close()
+	_ = c.cmd.Wait()
+	child = nil
+	msg := c.errb.String()
+	outs := make([]string, len(lines))
+	for i := range outs {
+		outs[i] = "crashed"
+	}
+	switch {
+	case killed:
+		return outs, map[string]string{"C15:mux:operation-never-completes": fmt.Sprintf("the script did not finish within %v; the process was killed", childTimeout)}
+	case strings.Contains(msg, "OBSERVATION never-completes"):
+		at := msg[strings.Index(msg, "OBSERVATION never-completes"):]
+		if i := strings.Index(at, "\n"); i > 0 {
+			at = at[:i]
+		}
+		return outs, map[string]string{"C15:mux:operation-never-completes": strings.TrimPrefix(at, "OBSERVATION never-completes: ")}
+	case strings.Contains(msg, "no quiescent snapshot within"):
+		return outs, map[string]string{"C15:mux:goroutines-never-quiesce": "goroutines of the code under test keep running without any stimulus"}
+	case strings.Contains(msg, "harness error") || !(strings.Contains(msg, "panic:") || strings.Contains(msg, "fatal error:")):
 		fmt.Fprintln(os.Stderr, msg)
-		fmt.Fprintln(os.Stderr, "harness error: child failed while running", lines)
-		os.Exit(2)
+		childFail(fmt.Sprint("child failed while running ", lines))
 	}
 	first := ""
 	for _, l := range strings.Split(msg, "\n") {
@@ -1281,25 +1518,29 @@ func runInChild(lines []string) ([]string, map[string]string) {
 			break
 		}
 	}
-	outs := make([]string, len(lines))
-	for i := range outs {
-		outs[i] = "crashed"
-	}
 	key := "C15:mux:process-died"
-	if strings.Contains(first, "concurrent map") {
+	switch {
+	case strings.Contains(first, "concurrent map"):
 		key = "C15:cache:unsynchronised-access"
+	case strings.Contains(first, "unhashable type"):
+		// the failing input is the key type of the script, not the text of the panic
+		key = "C15:mux:unhashable-key:keytype-" + keyTypeOf(lines)
 	}
 	return outs, map[string]string{key: "the process died while running the script: " + first}
 }
 
-func runCase(c corr.Case) corr.Result {
-	var outs []string
-	var hits map[string]string
-	if risky(c.Lines) {
-		outs, hits = runInChild(c.Lines)
-	} else {
-		outs, hits = runScript(c.Lines)
+func keyTypeOf(lines []string) string {
+	t := "int"
+	for _, l := range lines {
+		if f := strings.Fields(l); len(f) == 2 && f[0] == "keytype" {
+			t = f[1]
+		}
 	}
+	return t
+}
+
+func runCase(c corr.Case) corr.Result {
+	outs, hits := runInChild(c.Lines)
 	res := corr.Result{Outs: outs}
 	var keys []string
 	for k := range hits {
@@ -1388,8 +1629,37 @@ func genScript(r *rng.R, tier string) []string {
 	return lines
 }
 
+// genKeyType: the seven operations with keys of another key type of hasher.go (map facade, or an LRU with one worker:
+// which keys share a cache — hence eviction — depends on routing, which the property does not fix)
+func genKeyType(r *rng.R, tier string) []string {
+	t := r.Pick("string", "string", "int64", "uint64", "intcrc", "int64crc", "uint64crc")
+	first := fmt.Sprintf("new map 0 %d", r.PickInt(1, 2, 3, 5))
+	if r.Chance(1, 3) {
+		first = fmt.Sprintf("new %s %d 1", r.Pick("lru", "lrus"), r.PickInt(1, 2, 3, 8))
+	}
+	lines := []string{first, "keytype " + t}
+	keys := []int{r.Range(-3, 7), r.Range(-3, 7), r.Range(0, 1000000)}
+	for i, n := 0, r.Range(8, 24); i < n; i++ {
+		k := keys[r.Intn(len(keys))]
+		switch r.Intn(10) {
+		case 0, 1:
+			lines = append(lines, fmt.Sprintf("get %d %s", k, genFaults(r)))
+		case 2, 3:
+			lines = append(lines, fmt.Sprintf("del %d %s", k, genFaults(r)), fmt.Sprintf("get %d -", k))
+		case 4, 5, 6, 7:
+			lines = append(lines, fmt.Sprintf("%s %d %d %s", valueOps[r.Intn(len(valueOps))], k, r.Range(0, 99), genFaults(r)))
+		default:
+			lines = append(lines, fmt.Sprintf("peek %d", k), fmt.Sprintf("store %d", k))
+		}
+	}
+	for _, k := range keys {
+		lines = append(lines, fmt.Sprintf("peek %d", k), fmt.Sprintf("store %d", k))
+	}
+	return lines
+}
+
 func genGarbage(r *rng.R) []string {
-	toks := []string{"gap", "lrus", "start", "where", "probe", "bytes", "new", "get", "add", "upd", "del", "uoa", "utl", "utr", "peek", "store", "stress", "pile", "c", "0c", "cx", "map", "lru", "0", "1", "-1", "-", "01", "2", "x",
+	toks := []string{"backlog", "gap", "lrus", "start", "where", "probe", "bytes", "new", "get", "add", "upd", "del", "uoa", "utl", "utr", "peek", "store", "stress", "pile", "c", "0c", "cx", "map", "lru", "0", "1", "-1", "-", "01", "2", "x",
 		"99999999999999999999", "1000", "+1", "", "012", "-9223372036854775809"}
 	lines := []string{r.Pick("new map 0 1", "new lru 2 2", "new lrus 2 1", "new bogus 1 1", "new lru 65 1", "new map 0 0", "new lru 1 129")}
 	for i := 0; i < 8; i++ {
@@ -1471,6 +1741,14 @@ func fixedCases() []corr.Case {
 				"del "+k+" -", "peek "+k, "store "+k, "add "+k+" 2 -", "utr "+k+" 1 -", "peek "+k, "store "+k, "del "+k+" -", "utl "+k+" 3 -", "get "+k+" -", "peek "+k)
 		}
 	}
+	for _, t := range []string{"string", "int64", "uint64", "intcrc", "int64crc", "uint64crc"} {
+		// every operation with a non-Int key type; a get after a successful delete must consult the store
+		add("boundary-keytype", "new map 0 3", "keytype "+t, "add 1 5 -", "get 1 -", "upd 1 1 -", "del 1 -", "get 1 -", "peek 1", "add 1 2 -", "uoa 1 1 -", "utl 1 1 -", "utr 1 1 -", "peek 1", "store 1",
+			"del 1 -", "peek 1", "utl 2 3 -", "get 2 -", "del 2 1", "get 2 -", "del 2 -", "get 2 -", "add 2 0 -", "del 2 -", "add 2 1 -", "peek 2")
+		add("boundary-keytype", "new lru 2 1", "keytype "+t, "utr -1 5 -", "utl -1 1 -", "get -1 -", "gap upd -1 1", "del -1 -", "get -1 -", "uoa -1 4 -", "peek -1", "store -1")
+	}
+	add("backlog", "new map 0 1", "backlog 1 70 -", "backlog 1 300 -")
+	add("backlog", "new lru 4 2", "keytype string", "backlog 5 130 -")
 	add("pile", "new map 0 1", "pile 1 5 -", "add 1 1 -")
 	add("pile", "new lru 2 3", "pile -2 4 -")
 	add("stress", "new map 0 2", "stress 1 8 -", "add 1 1 -", "peek 1")
@@ -1501,17 +1779,21 @@ func spec() corr.Spec {
 			switch {
 			case i%40 == 11:
 				return corr.Case{Tag: "malformed", Lines: genGarbage(r)}
-			case i%150 == 71:
+			case i%10 == 4:
+				return corr.Case{Tag: "keytype", Lines: genKeyType(r, tier)}
+			case i%307 == 131 || (tier != "quick" && i%101 == 31):
+				return corr.Case{Tag: "backlog", Lines: []string{fmt.Sprintf("new %s %d 2", r.Pick("map", "lru"), r.PickInt(2, 8)), fmt.Sprintf("backlog %d %d -", r.Range(-3, 7), r.PickInt(70, 130, 300, 1000, 3000))}}
+			case i%151 == 71:
 				ls := genScript(r, tier)
 				at := r.Range(1, len(ls)-1)
 				ls = append(ls[:at:at], append([]string{"start"}, ls[at:]...)...)
 				ls = append(ls, fmt.Sprintf("pile %d %d -", keyPool[r.Intn(8)], r.Range(2, 6)))
 				return corr.Case{Tag: "script+start", Lines: ls}
-			case i%100 == 33:
+			case i%101 == 33:
 				ls := genScript(r, tier)
 				ls = append(ls, fmt.Sprintf("pile %d %d -", keyPool[r.Intn(8)], r.Range(2, 8)))
 				return corr.Case{Tag: "script+pile", Lines: ls}
-			case i%200 == 57 || (tier != "quick" && i%50 == 7):
+			case i%199 == 57 || (tier != "quick" && i%53 == 7):
 				ls := genScript(r, tier)
 				ls = append(ls, fmt.Sprintf("stress %d %d -", r.Range(0, 1<<20), r.Range(4, 16)))
 				return corr.Case{Tag: "script+stress", Lines: ls}
